@@ -117,6 +117,10 @@ AnnCont == {A1(k, x) : k \in {"seq", "set", "fset", "vtuple", "alias"}, x \in Sm
              \cup {A1("tuple", x) : x \in Small} \cup {A2("tuple", x, y) : x \in Small, y \in Small}
              \cup {A2("map", k, x) : k \in {A("str"), A("int")}, x \in Small}
              \cup {A2("union", x, y) : x \in Small \cup {A("missing")}, y \in Small \cup {A("float")}}
+             \* unions with a parametrised container alternative (Optional[tuple[int, ...]] and the like)
+             \cup {A2("union", x, y) : x \in {A1("vtuple", A("int")), A2("tuple", A("int"), A("str")), A1("fset", A("int")),
+                                              A1("seq", A("str")), A1("set", A("int")), A2("map", A("str"), A("int"))},
+                                       y \in {A("none"), A("str")}}
 AnnDeep == {A1("seq", x) : x \in {A1("seq", A("int")), A2("tuple", A("str"), A("int")), A2("map", A("str"), A("int")),
                                   A2("union", A("int"), A("none"))}}
              \cup {A2("map", A("str"), x) : x \in {A1("seq", A("int")), A1("set", A("int")), A2("union", A("str"), A("none"))}}
